@@ -355,13 +355,20 @@ def main(tier):
                     A = make_csr(dom, it, prog, n, rows)
                     lu = dom.new_object(CLS, None, None)
                     it.call_function(lu_ctor[0], lu, [Cell(A)])
-                    for rhs_tag in ("b", "c"):
-                        x = SArr("rhs", n, gen=lambda j, t=rhs_tag: dag.atom("%s_%d" % (t, j)))
+                    # right-hand sides solved one after another with the same object: two generic ones, then vectors with
+                    # EXACT leading zeros (a sparse source, a unit vector) - special values a generic symbol never takes
+                    rhs_list = [("b", lambda j: dag.atom("b_%d" % j)), ("c", lambda j: dag.atom("c_%d" % j))]
+                    if n >= 2:
+                        rhs_list.append(("leading zero, then generic", lambda j: dag.ZERO if j < 1 else dag.atom("z_%d" % j)))
+                        rhs_list.append(("last unit vector", lambda j: dag.ONE if j == n - 1 else dag.ZERO))
+                        rhs_list.append(("b again", lambda j: dag.atom("b_%d" % j)))
+                    for rhs_tag, gen_ in rhs_list:
+                        x = SArr("rhs", n, gen=gen_)
                         it.call_function(solve[0], lu, [PtrInto(x, 0)])
-                        sol = [dag.lift(x.sym.get(i, dag.atom("%s_%d" % (rhs_tag, i)))) for i in range(n)]
+                        sol = [dag.lift(x.sym.get(i, gen_(i))) for i in range(n)]
                         for i in range(n):
                             lhs = dag.total(dag.mul(entries[(i, j)], sol[j]) for j in range(n) if (i, j) in entries)
-                            if not dag.equal(lhs, dag.atom("%s_%d" % (rhs_tag, i))):
+                            if not dag.equal(lhs, dag.lift(gen_(i))):
                                 bad = "right-hand side '%s': row %d of A x - b does not vanish identically" % (rhs_tag, i)
                                 break
                         if bad:
